@@ -227,6 +227,9 @@ func (c caseT) credMD() (map[string]string, error) {
 // credMDFor: what the credential supplied by who (caller | L1 | L2) hands out:
 // the case's map, the values marked with the supplier when it is an interceptor.
 func (c caseT) credMDFor(who string) (map[string]string, error) {
+	if sp, ok := c.specOf(who); ok {
+		return sp.md(who)
+	}
 	m, err := c.credMD()
 	if who == "" || who == "caller" || len(m) == 0 {
 		return m, err
@@ -434,7 +437,7 @@ func (c *countRT) RoundTrip(r *http.Request) (*http.Response, error) {
 	atomic.AddInt64(&c.n, 1)
 	c.mu.Lock()
 	c.sent, c.sch = map[string][]string{}, r.URL.Scheme
-	for _, k := range mdUniverse {
+	for _, k := range append(append([]string(nil), mdUniverse...), ownKeys...) {
 		if vs := r.Header.Values(k); len(vs) > 0 {
 			c.sent[k] = append([]string(nil), vs...)
 		}
@@ -917,8 +920,16 @@ func check0(c caseT, o obsT) (fs []finding) {
 		}
 		return fs
 	}
+	// with several credentials options of different properties in one call
+	// (mixed.go) the one in effect decides; the others must not leak
+	effKind, effRequire := c.effKind(), c.effRequire()
+	lfs, free := notInEffectFindings(c, o, insecure)
+	fs = append(fs, lfs...)
+	if free {
+		return fs
+	}
 	switch {
-	case c.hasCreds() && c.Require && insecure:
+	case c.hasCreds() && effRequire && insecure:
 		// "the call fails before any request is issued"
 		f := finding{clause: "secure-creds-refused-on-insecure-transport"}
 		switch {
@@ -937,7 +948,7 @@ func check0(c caseT, o obsT) (fs []finding) {
 			f.detail = "no request issued but the call reported success"
 		}
 		return append(fs, f)
-	case c.hasCreds() && c.Creds == "error":
+	case c.hasCreds() && effKind == "error":
 		f := finding{clause: "credential-error-fails-call"}
 		switch {
 		case o.HandlerRan > 0:
@@ -948,11 +959,11 @@ func check0(c caseT, o obsT) (fs []finding) {
 			f.detail = "the credential returned an error, yet the call reported success"
 		}
 		return append(fs, f)
-	case c.hasCreds() && c.Require && c.Transport == "inproc" && o.err != nil && o.HandlerRan == 0:
+	case c.hasCreds() && effRequire && c.Transport == "inproc" && o.err != nil && o.HandlerRan == 0:
 		// in-process counts as secure in the library; refusing instead would not
 		// contradict the statement. Nothing to check.
 		return nil
-	case c.hasCreds() && c.Require && c.schemeClass() == "https-other-case" && o.err != nil && o.HandlerRan == 0 && o.Requests == 0:
+	case c.hasCreds() && effRequire && c.schemeClass() == "https-other-case" && o.err != nil && o.HandlerRan == 0 && o.Requests == 0:
 		// "Https": not literally https (so refusing is what the statement says),
 		// but URL schemes are case-insensitive and net/http sends the request over
 		// TLS (so carrying is not a leak). Both conform. Nothing to check.
@@ -979,7 +990,7 @@ func check0(c caseT, o obsT) (fs []finding) {
 		for _, k := range keys {
 			if !containsAll(o.HandlerMD[k], want[k]) {
 				f.fail = "key=" + k
-				f.detail = fmt.Sprintf("handler saw %q=%q, needs all of %q (caller metadata %v, credential metadata kind %q)", k, o.HandlerMD[k], want[k], callerMD(c.CallerMD), c.Creds)
+				f.detail = fmt.Sprintf("handler saw %q=%q, needs all of %q (caller metadata %v, credential metadata kind %q)", k, o.HandlerMD[k], want[k], callerMD(c.CallerMD), effKind)
 				if c.Via != nil {
 					f.detail += fmt.Sprintf("; call options supplied by %s: the credential in effect is the one of %s (the last grpc.PerRPCCredentials option in the list the channel is given, as in grpc-go)", c.Via, c.credWinner())
 				}
@@ -1603,8 +1614,26 @@ func main() {
 		fmt.Fprintln(os.Stderr, "INCONCLUSIVE: oracle calibration:", err)
 		os.Exit(2)
 	}
+	calibratedMixed, err := calibrateMixed()
+	if err != nil {
+		fmt.Fprintln(os.Stderr, "INCONCLUSIVE: oracle calibration:", err)
+		os.Exit(2)
+	}
 	connCompared = 0
 	refRuns := 0
+	if rep.Tier == "thorough" {
+		// several credentials options with properties of their own against grpc-go
+		for _, c := range mixCases("thorough", true) {
+			o := guarded(e, c)
+			refRuns++
+			for _, f := range check(c, o) {
+				if f.fail != "" {
+					fmt.Fprintf(os.Stderr, "INCONCLUSIVE: the oracle rejects grpc-go's own behaviour on %+v (via %v): %s %s: %s\n", c, c.Via, f.clause, f.fail, f.detail)
+					os.Exit(2)
+				}
+			}
+		}
+	}
 	if rep.Tier == "thorough" {
 		// interceptor-supplied options against grpc-go: the same interceptor
 		// functions as dial options of a grpc.ClientConn
@@ -1744,6 +1773,36 @@ func main() {
 	}
 	viaG.report(rep, "C13|", " for every transport / kind / credential / caller metadata / supplier configuration the clause applies to")
 
+	// several credentials options in one call, each with properties of its own (mixed.go)
+	mixG := newGrouper(mixDimNames) // scope: the clause
+	nMix, mixReached, mixLists, mixRefusalOpen := 0, map[string]bool{}, map[string]bool{}, 0
+	for _, c := range mixCases(rep.Tier, false) {
+		o := guarded(e, c)
+		evals++
+		nMix++
+		mixLists[fmt.Sprintf("%v|%s", c.Via.Prepend, c.specList())] = true
+		k := fmt.Sprintf("%+v via %v", c, c.Via)
+		for _, so := range o.Suppliers {
+			if so.Who == c.credWinner() && so.CredCalls[0]+so.CredCalls[1] > 0 {
+				mixReached[k], distinct[k] = true, true
+			}
+		}
+		fs := check(c, o)
+		for _, f := range fs {
+			clauseCount[f.clause]++
+			mixG.add("mixed|"+f.clause, mixDims(c, f), f, c)
+		}
+		if len(fs) == 1 && fs[0].clause == clauseNotInEffect && fs[0].fail == "" && o.err != nil {
+			mixRefusalOpen++ // refused although the credential in effect accepts any transport (conforms)
+		}
+		sk := "mixed|" + c.Transport + "|" + opKind(c.Op)
+		if sp, sp2 := c.Via.Each["caller"], c.Via.Each["caller2"]; !sampled[sk] && c.Via.Caller == "two" && len(c.Via.Layers) == 0 && sp == (credSpecT{"own", true}) && sp2 == (credSpecT{"own", false}) && c.CallerMD == "some" && !isSchemeTransport(c.Transport) {
+			sampled[sk] = true
+			samples = append(samples, map[string]interface{}{"case": c, "observed": o})
+		}
+	}
+	mixG.report(rep, "C13|", " for every transport / kind / caller metadata / list of credentials the clause applies to")
+
 	// the base URL's scheme (supply.go)
 	schemeG := newGrouper(schemeDimNames) // scope: the clause
 	nScheme, schemeDecided, schemeSeen := 0, map[string]bool{}, map[string]map[string]bool{}
@@ -1879,6 +1938,7 @@ func main() {
 			"Verdicts do not depend on Go's map iteration order: when two spellings of one key collide in a map either the caller's or the credential's values survive, and both outcomes violate the inclusion (and the exact) clause; the oracle calibration feeds both outcomes (and the complete one) to the clause for every shape before the run; each case is run once; the text of a report leaves out the observed values for these cases (--replay prints them). " +
 			"Plus WHO SUPPLIES the call options: what the caller passes {nothing, the credentials and a peer target} x 1 or 2 grpchan.InterceptClientConn wrappers around the channel, each installed for {the kind of the call only (the other interceptor nil), both kinds, the other kind only (the call passes through it)} (two wrappers: both kinds, plus the combinations with one wrapper of the other kind) and each adding {nothing, grpc.PerRPCCredentials, grpc.Peer, both} to the options it passes to the invoker/streamer" + map[bool]string{true: ", after or in front of the options it was given", false: " (appended)"}[rep.Tier == "thorough"] + "; without the configurations in which nobody passes anything, or nobody passes the credentials of a case that has some. CROSSED with every transport x every op x every credential {absent, {require security or not} x {nil, empty, one, overlap, both, error}} x caller metadata {absent, present}; host spelling IPv4:port and no header option (crossed with the rest in the main product). Every supplier has its own credential object (an interceptor's marks its values @L1/@L2) and its own peer.Peer. Same oracle as for single calls: the metadata of the credential in effect (the last grpc.PerRPCCredentials of the option list the channel is given) reaches the handler merged with the caller's; credentials requiring security refuse the call on http before any request (counting RoundTripper); every peer target anybody passed is filled (address; TLS info on TLS, none on cleartext). " +
 			"Plus the base URL's SCHEME: {http, https, HTTP, Https, h2c, http+unix, ws, empty} as a url.URL literal x RoundTripper accepting it {custom RoundTripper serving in memory, stock http.Transport with the scheme registered by RegisterProtocol, RoundTripper forwarding https requests to the TLS loopback server and all others in the clear to the plain one} x host {IPv4:port, IPv4 without port} x every op x every credential x caller metadata x peer option; plus the alphabet swept around interceptor-supplied credentials (custom RoundTripper, one wrapper adding credentials + peer, caller passing nothing / everything, require or not, every op). Oracle: scheme https carries everything; every scheme that is not https in any spelling (HTTP and the empty one included) refuses credentials requiring security with zero requests handed to the RoundTripper and carries all other calls; Https (https in another case) may refuse (the statement read literally, what the library does) or carry (RFC 3986: schemes are case-insensitive, net/http speaks TLS for it). Peer clauses as everywhere; the in-memory RoundTrippers have no TLS whatever the URL says, so no TLS info may be reported there. " +
+			"Plus SEVERAL grpc.PerRPCCredentials options in one call, EACH WITH PROPERTIES OF ITS OWN: option lists [caller, caller2] (the caller passes two, no wrapper), [caller, L1], [L1, L2], [caller, L1, L2]" + map[bool]string{true: ", the same with the interceptors' options in front, a wrapper installed for the kind of the call only, [caller, caller2, L1]", false: ""}[rep.Tier == "thorough"] + " x every assignment of (metadata kind from {one: the key tok all credentials share, own: a key only this credential has, empty map, error}, requires security or not) to every position" + map[bool]string{true: "", false: " (lists of three: kinds {one, own})"}[rep.Tier == "thorough"] + " x every transport x every op x caller metadata {absent, present}; plus the scheme alphabet around [caller, caller2] with the requirement on the first only / the second only. Oracle: the last option of the list is in effect (grpc-go; thorough requires the oracle to accept grpc-go on this grammar) and the single-call clauses are asked of it (requires security and the URL is not https: fails before any request; its error fails the call; else its metadata reaches the handler merged with the caller's); of a credential NOT in effect that requires security, on a URL that is not https, no metadata value may be handed to the RoundTripper or reach the handler (clause " + clauseNotInEffect + "); refusing such a call before any request, or failing a call because a credential not in effect returned an error, conforms as well. " +
 			"A case is non-trivial when the credential object was actually consulted (its RequireTransportSecurity/GetRequestMetadata call counters are > 0), or the grpc.Peer target was written, or the connection was TLS (so the TLS-info clause of the handler's peer applies); distinct by all case parameters.",
 		"clause_evaluations":          clauseCount,
 		"sequences":                   nSeq,
@@ -1908,6 +1968,14 @@ func main() {
 			"distinct_interceptor_option_reached_channel": len(viaReached),
 			"rule": "distinct cases in which an option ADDED BY AN INTERCEPTOR reached the mechanism: the interceptor's credential object was consulted (RequireTransportSecurity/GetRequestMetadata counters > 0) or the interceptor's peer.Peer was written",
 		},
+		"credentials_with_properties_of_their_own": map[string]interface{}{
+			"cases":                 nMix,
+			"distinct_option_lists": len(mixLists),
+			"distinct_credential_in_effect_consulted":                  len(mixReached),
+			"refused_although_the_one_in_effect_accepts_any_transport": mixRefusalOpen,
+			"rule":                     "distinct cases of the mixed grammar in which the credential in effect (the last of the list) was consulted by the channel (RequireTransportSecurity/GetRequestMetadata counters > 0) while the list held at least one more credentials option; distinct_option_lists: distinct (order, per position supplier + kind + requirement) lists; clause_evaluations has how often the clause about credentials not in effect was decided",
+			"oracle_calibration_cases": calibratedMixed,
+		},
 		"base_url_scheme": map[string]interface{}{
 			"alphabet":                          len(schemeAlphabet),
 			"cases":                             nScheme,
@@ -1925,7 +1993,7 @@ func main() {
 		"metadata merge is demanded as multiset inclusion per key (all caller values and all credential values present), order and extra keys free",
 		"metadata keys are case-insensitive (grpc-go lower-cases the keys of a credential's map and of the outgoing metadata; thorough runs the whole key-case grammar against grpc-go over bufconn and requires the oracle to accept it): the handler has to find the values under the lower-cased key however caller and credential spelled it",
 		"not in the grammar: a credential map that holds two spellings of the same key at once (grpc-go keeps only one of them); a caller metadata.MD literal with upper-case keys (grpc-go refuses the call: 'header key contains illegal characters') - the caller's spellings go through metadata.Pairs / AppendToOutgoingContext, which lower-case them in the grpc version the library is built with, so for the caller's side the spelling dimension exercises that package together with the library; the credential's map reaches the library as spelled",
-		"several grpc.PerRPCCredentials options in one call (caller and interceptors all passing one): the last of the list the channel is given is in effect, as in grpc-go (thorough runs the supplier grammar against grpc-go with the interceptors installed as dial options and requires the oracle to accept it); all credentials of one case have the same RequireTransportSecurity, so the refusal clause does not depend on which one is consulted; what becomes of the metadata of the credentials not in effect is free",
+		"several grpc.PerRPCCredentials options in one call (caller and interceptors all passing one): the last of the list the channel is given is in effect, as in grpc-go (thorough runs the supplier grammar against grpc-go with the interceptors installed as dial options and requires the oracle to accept it); in the supplier grammar all credentials of one case have the same RequireTransportSecurity and metadata kind; the mixed grammar gives each its own. What becomes of the metadata of a credential not in effect is free as long as it accepts any transport; when it requires transport security and the base URL is not https none of it may leave the client (\"never cross an insecure transport\"), and a library that refuses the whole call instead conforms too",
 		"base-URL scheme Https: refusing and carrying are both taken as conforming (see rule); HTTP, h2c, http+unix, ws and the empty scheme are 'not https' under every reading and must refuse credentials that require security, whatever the RoundTripper would do with the request",
 		"a credential whose GetRequestMetadata fails has to fail the call without the handler running (as grpc-go does); the error's type is not constrained",
 		"TLS info of a grpc.Peer target has to be that of the connection the call used: keying material exported (RFC 5705/8446 exporter, fixed label) from the target's tls.ConnectionState equals what the HTTP server exports for the connection the request arrived on; every call uses a connection (and handshake) of its own, so the TLS info of any earlier call, also one to the same server, is told apart; compared whenever both ends yield an exporter value (count in tls_info_connection_identity_compared)",
